@@ -470,6 +470,8 @@ def own_nodes(fnode) -> Iterator[ast.AST]:
     while stack:
         n = stack.pop()
         yield n
+        if isinstance(n, (ast.FunctionDef, ast.AsyncFunctionDef, ast.ClassDef)):
+            continue        # a nested definition: its body belongs to another activation
         for ch in reversed(list(ast.iter_child_nodes(n))):
             if isinstance(ch, (ast.FunctionDef, ast.AsyncFunctionDef, ast.ClassDef)):
                 continue
